@@ -15,11 +15,6 @@ def valueLines (v : Bytes) : List Bytes := Str.split [10] (Str.trimSuffix v [10]
     that the format reserves for the empty line -/
 def wfLine (l : Bytes) : Bool := Str.trimRightSpace l = l && l != [46]
 
-/-- the first line may start with a blank or tab (it is then written on a continuation
-    line) but with no other white-space rune, which the reader would trim away -/
-def wfFirstLine (l : Bytes) : Bool :=
-  Str.trimLeftSpace l = l || Str.hasPrefix l [32] || Str.hasPrefix l [9]
-
 /-- an empty first line only when it is the whole value (see the recorded finding
     `leading-empty-line` for the excluded case) -/
 def noLeadingEmptyLine (v : Bytes) : Bool :=
@@ -28,7 +23,7 @@ def noLeadingEmptyLine (v : Bytes) : Bool :=
   | first :: rest => !first.isEmpty || rest.isEmpty
 
 def textValue (v : Bytes) : Bool :=
-  (valueLines v).all wfLine && wfFirstLine ((valueLines v).headD []) && noLeadingEmptyLine v
+  (valueLines v).all wfLine && noLeadingEmptyLine v
 
 /-- a paragraph of text-line values under well-formed, distinct field names, with a
     value for exactly the listed fields -/
